@@ -442,6 +442,16 @@ class Transaction:
                 # Known-pre-commit-point failure - safe to clean up written files
                 self._rollback()
                 raise e
+            except BaseException:
+                # KeyboardInterrupt / SystemExit can arrive at any instruction,
+                # including after the version hint was flipped but before
+                # _finish_committed() ran. Whether the commit point was passed is
+                # unknown here, so treat it like an ambiguous outcome: keep every
+                # written file (a durable snapshot may reference them) and mark the
+                # transaction finished, so the context manager's exit cannot roll
+                # back and delete committed data. True orphans are GC'd later.
+                self._rollback(delete_files=False)
+                raise
 
         # This line should not be reached if max_retries > 0, but added for completeness
         self._rollback()
